@@ -91,6 +91,25 @@ class Flow:
                         for op in rvalue_operands(rv):
                             push_op(op, proj)
                     elif k == "agg":
+                        sel = None
+                        if proj and len(pl) == 1 and proj[0].startswith("."):
+                            # field selection on an aggregate: follow only the selected operand
+                            fname = proj[0][1:]
+                            if rv[1] == "tuple" and fname.isdigit() and int(fname) < len(rv[4]):
+                                sel = int(fname)
+                            elif rv[1] == "adt" and len(rv) > 5 and fname in rv[5] and len(rv[5]) == len(rv[4]):
+                                sel = rv[5].index(fname)
+                            elif rv[1] == "closure" and fname.isdigit() and int(fname) < len(rv[4]):
+                                sel = int(fname)
+                        if proj and len(pl) == 1 and proj[0].startswith("as ") and rv[1] == "adt":
+                            if rv[3] != proj[0][3:]:
+                                continue  # a different variant was stored here: not the value read through this downcast
+                            if len(proj) > 1 and proj[1].startswith(".") and len(rv) > 5 and proj[1][1:] in rv[5] and len(rv[5]) == len(rv[4]):
+                                push_op(rv[4][rv[5].index(proj[1][1:])], proj[2:])
+                                continue
+                        if sel is not None:
+                            push_op(rv[4][sel], proj[1:])
+                            continue
                         for op in rv[4]:
                             push_op(op, proj)
                         if not rv[4]:
